@@ -16,6 +16,9 @@ FEED_CATS = DISPLAY_CATS + ('convert-from-unit', 'qstr', 'storage-label', 'add-u
 
 
 def run(ctx):
+    # contents are keyed by Substance objects: the key laws this property's bookkeeping relies on
+    from .identity import identity_discipline as _identity
+    _identity(ctx, 'C19.R2', classes=('Substance',), memoised=False)
     model = ctx.model
     from . import unitspec as _us
     _us.api_verified(ctx, 'C19.R1')
